@@ -149,6 +149,11 @@ VARIANTS = [
                     "self._epoch_manager = epoch_configs if isinstance(epoch_configs, EpochManager) "
                     "else EpochManager(epoch_configs)"),
       note="an engine may share a manager (pointer, clock) with its builder", expect_rule="C07.R1"),
+    V("c07_rejected_epoch_stays", "M", P, "EpochManager.append",
+      lambda nd: isinstance(nd, ast.If) and "is_warmup" in ast.unparse(nd.test),
+      lambda nd: stmt("self._configs.append(config)") + [nd] + stmt("self._configs.pop()"),
+      note="a warm-up epoch rejected after POSTERIOR has already been scheduled",
+      expect_rule="C07.R9"),
     # ---- twins
     V("c07_t_seq_tune_comp", "T", Q, "KernelSequence.start_epoch",
       lambda nd: isinstance(nd, ast.Assign) and ast.unparse(nd.targets[0]) == "states",
